@@ -40,7 +40,7 @@ func VerifC09Stmt() {
 	// generators, whose contexts must not collide with anything left behind
 	next := node.For{VarRefs: node.List{Elems: []node.Type{nm("k"), nm("l")}},
 		Iterators: node.List{Elems: []node.Type{call("fromto", node.Int(0), node.Int(2)), call("fromto", node.Int(5), node.Int(8))}},
-		Body: bin("+", nm("k"), nm("l"))}
+		Body:      bin("+", nm("k"), nm("l"))}
 	v, err2 := s.Run(next, true)
 	got, isInt := v.ToInt()
 	vrt.Assert(err2 == nil && isInt && got == 7, "next-statement-value")
